@@ -182,8 +182,12 @@ partial def loadG (j : Json) : G :=
   | "leaf" => .leaf name m (jbool j "mandatory") (optStr j "dflt")
   | "leaf-list" => .leafList name m (optNat j "min") (optNat j "max")
   | "choice" => .choice name m (jbool j "mandatory") (optStr j "dflt") kids
-  | "uses" => .uses (bytesOf (jstr j "g")) (qualIff (jarr j "iff")) (((jarr j "refines").filter fun rf => jstr rf "prop" ≠ "must").map refineOf)
-      ((jarr j "augments").map fun a => .aug (toks (jarr a "path")) (qualIff (jarr a "iff")) ((jarr a "kids").map loadG))
+  | "uses" =>
+    let statOf (x : Json) : Option Nat :=
+      match jstr x "status" with | "current" => some 0 | "deprecated" => some 1 | "obsolete" => some 2 | _ => none
+    let wrap (x : Json) (g : G) : G := match statOf x with | some s => .stat s g | none => g
+    wrap j (.uses (bytesOf (jstr j "g")) (qualIff (jarr j "iff")) (((jarr j "refines").filter fun rf => jstr rf "prop" ≠ "must").map refineOf)
+      ((jarr j "augments").map fun a => wrap a (.aug (toks (jarr a "path")) (qualIff (jarr a "iff")) ((jarr a "kids").map loadG))))
   | _ => .case name m kids
 
 /-- the inline module: nodes (and everything below) named in `a2names` belong to module a2 -/
@@ -204,7 +208,8 @@ def handleUses (j : Json) : List (String × Json) :=
     ((jarr j "mgroupings").map fun g => (bytesOf (jstr g "n"), (jarr g "kids").map loadG)) ++
     ((jarr j "bgroupings").map fun g => (bytesOf ("b:" ++ jstr g "n"), (jarr g "kids").map loadG))
   let augOf (ns : String) (a : Json) : ModAug :=
-    { ns := bytesOf ns, path := toks (jarr a "path"), iff := qualIff (jarr a "iff"), kids := (jarr a "kids").map loadG }
+    { ns := bytesOf ns, path := toks (jarr a "path"), iff := qualIff (jarr a "iff"), kids := (jarr a "kids").map loadG,
+      st := match jstr a "status" with | "current" => some 0 | "deprecated" => some 1 | "obsolete" => some 2 | _ => none }
   let augs := (jarr j "maugments").map (augOf "m") ++ (jarr j "aaugments").map (augOf "a2")
   let body := (jarr j "body").map loadG
   let a2 := toks (jarr j "a2names")
